@@ -22,3 +22,25 @@ Definition ext_eqb (a b : ext) : bool :=
 Definition Qabs_le (x y tol : Q) : bool := Qleb (x - y) tol && Qleb (y - x) tol.
 Definition rate_close (tol : Q) (a b : rate) : bool :=
   match a, b with Some x, Some y => Qabs_le x y tol | None, None => true | _, _ => false end.
+
+(* ---------- threshold setting ---------- *)
+From SA Require Export Model.Threshold.
+Definition thr64 := threshold_at succ64 pred64.
+(* model threshold agrees with the implementation's (exactly when tol = 0) *)
+Definition thr_agree (tol : Q) (mt : metric6) (s : scores) (m : method) (r impl : Q) : bool :=
+  match thr64 mt s r m with
+  | Ret t => Qabs_le t impl tol
+  | Raise => false
+  end.
+(* stream F: also accept the model's value at targets a hair to either side (grid targets flip
+   floor/ceil under float rounding) *)
+Definition thr_agree_f (tol delta : Q) (mt : metric6) (s : scores) (m : method) (r impl : Q) : bool :=
+  thr_agree tol mt s m r impl || thr_agree tol mt s m (r + delta) impl || thr_agree tol mt s m (r - delta) impl.
+Definition thr_raises (mt : metric6) (s : scores) (m : method) (r : Q) : bool :=
+  match thr64 mt s r m with Raise => true | Ret _ => false end.
+Fixpoint all2 {A B} (f : A -> B -> bool) (l1 : list A) (l2 : list B) : bool :=
+  match l1, l2 with
+  | [], [] => true
+  | x :: r, y :: s => f x y && all2 f r s
+  | _, _ => false
+  end.
